@@ -25,6 +25,19 @@ SWEEP_FOR = [
 ]
 
 
+# thorough tier: the sweeps whose findings can carry a given property id (C11 needs the parallel feature: none)
+SWEEPS_NAMING = {}
+for _p in ('C01', 'C02', 'C03', 'C04', 'C07', 'C10', 'C18'):
+    SWEEPS_NAMING[_p] = [['algebra_sweep']]
+for _p in ('C06', 'C09'):
+    SWEEPS_NAMING[_p] = [['algebra_sweep'], ['stats_sweep']]
+for _p in ('C12', 'C13', 'C14'):
+    SWEEPS_NAMING[_p] = [['stats_sweep']]
+for _p in ('C15', 'C16', 'C17'):
+    SWEEPS_NAMING[_p] = [['model_sweep']]
+SWEEPS_NAMING['C08'] = [['algebra_sweep'], ['stats_sweep'], ['model_sweep'], ['nonfinite_derivative_stats'], ['nonfinite_phi', 'inf'], ['nonfinite_phi', 'nan']]
+
+
 def sweeps_for(fn_ids):
     out = []
     for fid in fn_ids:
